@@ -894,6 +894,74 @@ def unit_own_values(unit):
     return agg
 
 
+# ------------------------------------------------------------------------------------------ cells that are mutable objects
+class _Box:
+    def __init__(self, x):
+        self.x = x
+
+    def __eq__(self, o):
+        return isinstance(o, _Box) and o.x == self.x
+
+    def __hash__(self):
+        return 5
+
+    def __repr__(self):
+        return f"Box({self.x})"
+
+
+def unit_cells(unit):
+    """the statements `v[k] = cell; <the caller edits cell in place>; v[k2] = other; read` driven on a Vector and on a Python list
+    side by side: list assignment stores the OBJECT it is given - afterwards both hold equal contents and the very same cell
+    objects at the same positions.  Cell kinds list / dict / set / bytearray / a user object x every key form x every position."""
+    from serif import Vector
+    agg = Agg()
+    makers = {"list": lambda: [1], "dict": lambda: {"k": 1}, "set": lambda: {1}, "bytearray": lambda: bytearray(b"a"), "object": lambda: _Box(1), "nested": lambda: [[1], 2]}
+    mutate = {"list": lambda c: c.append(9), "dict": lambda c: c.__setitem__("z", 9), "set": lambda c: c.add(9), "bytearray": lambda c: c.extend(b"z"),
+              "object": lambda c: setattr(c, "x", 9), "nested": lambda c: c[0].append(9)}
+    n = 4
+    for ck in makers:
+        for pos in range(n):
+            for keyform in ("int", "negative-int", "slice", "index-list", "mask", "index-vector"):
+                for second in range(n):
+                    if second == pos:
+                        continue
+                    base = [makers[ck]() for _ in range(n)]
+                    pl = list(base)
+                    case = {"cell_kind": ck, "position": pos, "key_form": keyform, "second_write_at": second,
+                            "steps": ["v[k] = cell", "cell edited in place by the caller", "v[k2] = other", "compare with a Python list driven alike"]}
+                    agg.evals += 1; agg.transitions += 3; agg.states += 1; agg.nontrivial += 1; agg.compared += 1
+                    try:
+                        v = Vector(list(base))
+                        cell, other = makers[ck](), makers[ck]()
+                        if keyform == "int":
+                            v[pos] = cell
+                        elif keyform == "negative-int":
+                            v[pos - n] = cell
+                        elif keyform == "slice":
+                            v[pos:pos + 1] = [cell]
+                        elif keyform == "index-list":
+                            v[[pos]] = [cell]
+                        elif keyform == "index-vector":
+                            v[Vector([pos])] = [cell]
+                        else:
+                            v[[i == pos for i in range(n)]] = [cell]
+                        pl[pos] = cell
+                        mutate[ck](cell)
+                        v[second:second + 1] = [other]
+                        pl[second] = other
+                        got = list(v._underlying)
+                    except Exception as e:
+                        agg.skipped["cell-assignment-refused-" + type(e).__name__] += 1
+                        continue
+                    if [repr(x) for x in got] != [repr(x) for x in pl]:
+                        agg.violation(V("setitem.cells", "contents-differ-from-list-assignment", case, [repr(x) for x in pl], [repr(x) for x in got]))
+                    elif any(g is not w for g, w in zip(got, pl)):
+                        agg.violation(V("setitem.cells", "stores-another-object-than-the-one-assigned", case, "the assigned objects", [i for i, (g, w) in enumerate(zip(got, pl)) if g is not w]))
+                    else:
+                        agg.outcomes["assigned"] += 1
+    return agg
+
+
 # ------------------------------------------------------------------------------------------ rename_columns
 def unit_rename(unit):
     from serif import Table, Vector
@@ -958,14 +1026,14 @@ def unit_rename(unit):
 
 
 def run_unit(unit):
-    return {"vec": unit_vector, "tab": unit_table, "ren": unit_rename, "own": unit_own_values}[unit[0]](unit)
+    return {"vec": unit_vector, "tab": unit_table, "ren": unit_rename, "own": unit_own_values, "cells": unit_cells}[unit[0]](unit)
 
 
 def check(ctx):
     N = ctx.pick(3, 4)
     units = [("vec", k, nl, n) for k in BASE for nl in (False, True) for n in range(0, N + 1)]
     units += [("vec", k, nl, n, "long") for k in BASE if k != "object" for nl in (False, True) for n in (17, 33, 65)]
-    units += [("tab",), ("own",)] + [("ren", w) for w in (1, 2, 3)]
+    units += [("tab",), ("own",), ("cells",)] + [("ren", w) for w in (1, 2, 3)]
     agg = core.merge_all(core.pmap(run_unit, units))
     agg.notes["bound"] = f"vectors len<={N}; tables 2 rows x <=3 cols; rename lists len<=3; values that are the table's own live columns: every ordered choice of <=3 targets x sources of a 3x3 table x 5 row keys"
     agg.notes["exhaustive"] = True
